@@ -101,7 +101,7 @@ class G:
         self.emit(ind, "%s %s" % (kind, cond))
         self.branch(ind + 1, then_state, watched, depth, "%s-body:%s" % (kind, cs))
         prev_neg = negated(state) if kind == "if" else None
-        if kind == "if" and len(atoms) == 1 and self.i(0, 3) == 0:
+        if kind == "if" and (len(atoms) == 1 or not self.avoid) and self.i(0, 3) == 0:
             # elsif on the same or another variable, evaluated in the state where the first test failed
             cands2 = [w for w in prev_neg if len(prev_neg[w]) > 1]
             if cands2:
@@ -109,16 +109,27 @@ class G:
                 b = self.pick(self.atoms(w, prev_neg[w]))
                 if self.avoid and w == v and b[0].startswith("!") and "is_a?" in atoms[0][1][0]:
                     b = self.atoms(w, prev_neg[w])[0] if not self.atoms(w, prev_neg[w])[0][0].startswith("!") else self.atoms(w, prev_neg[w])[-1]
-                self.emit(ind, "elsif %s" % b[0])
+                # the elsif condition may itself be a chain over a second variable: each condition of an if/elsif ladder is a
+                # chain or not on its own
+                b2, w2 = None, None
+                others2 = [x for x in cands2 if x != w]
+                if others2 and not self.avoid and self.i(0, 2) == 0:
+                    w2 = self.pick(others2)
+                    b2 = self.pick(self.atoms(w2, prev_neg[w2]))
+                    self.shapes.add("elsif-chain")
+                self.emit(ind, "elsif %s" % (b[0] if b2 is None else b[0] + " && " + b2[0]))
                 self.shapes.add("elsif")
                 st2 = dict(prev_neg)
                 st2[w] = set(prev_neg[w]) & b[1]
+                if b2 is not None:
+                    st2[w2] = set(prev_neg[w2]) & b2[1]
                 self.branch(ind + 1, st2, sorted(set(watched) | {w}), depth, "elsif:%s>%s" % (atoms[0][1][0].split(".", 1)[1].split("(")[0].lstrip("!") + ("!" if atoms[0][1][0].startswith("!") else ""),
                                                                                               ("same:" if w == v else "other:") + b[0].split(".", 1)[1].split("(")[0] + ("!" if b[0].startswith("!") else "")))
                 cs = "after-elsif"
                 else_state = dict(prev_neg)
-                else_state[w] = set(prev_neg[w]) - b[1]
-                watched = sorted(set(watched) | {w})
+                if b2 is None:
+                    else_state[w] = set(prev_neg[w]) - b[1]
+                watched = sorted(set(watched) | {w} | ({w2} if w2 else set()))
         if self.i(0, 2) > 0 and not (self.avoid and len(atoms) > 1):
             self.emit(ind, "else")
             self.branch(ind + 1, else_state, watched, depth, "%s-else:%s" % (kind, cs))
